@@ -10,6 +10,7 @@ import (
 	"os"
 	"path/filepath"
 	"runtime"
+	"runtime/pprof"
 	"sort"
 	"strconv"
 	"strings"
@@ -53,6 +54,21 @@ func main() {
 		for _, s := range scenarios {
 			fmt.Println(s.Prop, s.Name, s.Quick, s.Thorough)
 		}
+	case "prof":
+		// mc prof <scenario> <seconds>: CPU profile of repeated root executions + level-1 children
+		sc := findScenario(os.Args[2])
+		secs, _ := strconv.Atoi(os.Args[3])
+		f, _ := os.Create("/var/tmp/mc.prof")
+		pprof.StartCPUProfile(f)
+		t0 := time.Now()
+		n := 0
+		e := &explorer{sc: sc, bound: Bound{1, 0}, res: &ItemResult{Outcomes: map[string]int64{}, Viol: map[string]*FoundViolation{}, ViolCount: map[string]int64{}}, hb: map[uint64]struct{}{}, shapes: map[string]struct{}{}}
+		e.deadline = t0.Add(time.Duration(secs) * time.Second)
+		e.explore(nil, 0)
+		n = int(e.res.Execs)
+		pprof.StopCPUProfile()
+		f.Close()
+		fmt.Printf("%d executions in %.1fs = %.0f/s\n", n, time.Since(t0).Seconds(), float64(n)/time.Since(t0).Seconds())
 	case "diverge":
 		// mc diverge <scenario> <comma separated prefix>: compare the parent execution (prefix
 		// without its last choice) with the child, step by step
